@@ -449,7 +449,7 @@ class AltSpec(FnContract):
         # no list of a sub-tree is modified (trees of different sources share nothing, C17 K5)
         ws = [e for e in ex.events if e[0] == 'write' and e[1] == 'list']
         for w in ws:
-            ex.prove('C17:%s:sub-tree-lists-not-modified[%s]' % (tag, w[2]), ['C17'], ex.is_fresh(w[3]))
+            ex.prove('C17:%s:sub-tree-lists-not-modified[%s]' % (tag, w[2]), ['C17'], ex.is_fresh(w[3]), soft=True)
 
     def code_spec(self, ex, ctx, tag, result):
         """p_code protocol (C15 Y1): blank statements are dropped, the others appended in order"""
